@@ -18,9 +18,13 @@ def enc_json(v) -> str:
     if isinstance(v, int):
         return f"i{v};"
     if isinstance(v, float):
-        if math.isinf(v) or math.isnan(v):
-            raise ValueError("non-finite float is outside the model")
+        if math.isnan(v):
+            raise ValueError("NaN is outside the model")
+        if math.isinf(v):
+            return "r1/0;" if v > 0 else "r-1/0;"
         n, d = v.as_integer_ratio()
+        if n == 0 and math.copysign(1.0, v) < 0:
+            return "r0/2;"  # -0.0, see Py.floatOfText
         return f"r{n}/{d};"
     if isinstance(v, str):
         return enc_str(v)
@@ -82,6 +86,10 @@ def _dec_json(s: str, i: int):
     if c == "r":
         j = s.index(";", i)
         n, d = s[i + 1 : j].split("/")
+        if int(d) == 0:
+            return math.copysign(math.inf, int(n)), j + 1
+        if int(n) == 0 and int(d) == 2:
+            return -0.0, j + 1
         return int(n) / int(d), j + 1
     if c == "q":
         j = s.index(";", i)
